@@ -7,6 +7,6 @@ x=$(mktemp -d /tmp/rx.XXXXXX)
 trap 'rm -rf "$x"' EXIT
 git -C /repo archive HEAD | tar -x -C "$x"
 if [ "$d" != "-" ]; then (cd "$x" && patch -p1 -s --no-backup-if-mismatch < "$d") || { echo "patch does not apply"; exit 2; }; fi
-out=$(/verif/bin/asverif checkall --repo "$x" "$@" 2>&1)
+out=$(${ASV_BIN:-/verif/bin/asverif} checkall --repo "$x" "$@" 2>&1)
 if [ -n "${RX_RAW:-}" ]; then echo "$out"; exit 0; fi
 echo "$out" | awk -v L=${LINES_MAX:-3} -v W=${WIDTH_MAX:-330} '/^== /{ if ($4!="0") {print "  ALARM " $2 " (exit " $4 ")"; n++; k=0; show=1} else show=0; next } /^VIOLATION|^KNOWN/{next} show && k<L {print "     " substr($0,1,W); k++} END{print "  => " n+0 " alarms"}'
